@@ -19,7 +19,8 @@ HERE = os.path.dirname(os.path.abspath(__file__))
 sys.path.insert(0, HERE)
 VERIF = os.path.dirname(HERE)
 REPO = os.environ.get("VERIF_REPO", "/repo")
-BUILD = os.path.join(VERIF, "build")
+BUILD = os.environ.get("VERIF_BUILD", os.path.join(VERIF, "build"))      # self-tests run in their own build/evidence dirs
+EVIDENCE = os.environ.get("VERIF_EVIDENCE_DIR", os.path.join(VERIF, "evidence"))
 
 from splice import splice, TemplateError  # noqa: E402
 from extract import LostAnchor  # noqa: E402
@@ -552,8 +553,8 @@ def main():
         "wall_s": round(wall, 2), "violations": len(violations),
         "exit_status": status,
     }
-    os.makedirs(os.path.join(VERIF, "evidence"), exist_ok=True)
-    json.dump(ev, open(os.path.join(VERIF, "evidence", f"{prop}.json"), "w"), indent=1)
+    os.makedirs(EVIDENCE, exist_ok=True)
+    json.dump(ev, open(os.path.join(EVIDENCE, f"{prop}.json"), "w"), indent=1)
     if status == 0:
         print(f"OK property={prop} obligations={n_obl} discharged={len(discharged)} known_findings={len(known_lines)} wall={wall:.1f}s")
     return status
